@@ -33,7 +33,13 @@ type c08Caller struct {
 // derived from the base index only, so all 48 runs of a base share it and EVERY position of it receives a
 // Close/GracefulClose; the closer kind, the armed socket faults and the pending callers are drawn per run.
 func runC08(c *core.Ctx) {
-	base, cut := c.Run/c08Positions, c.Run%c08Positions
+	// run index = base*(c08Positions+4) + slot: slots 0..47 are the cut positions of the base sequence,
+	// the four extra slots are close-during-gathering runs
+	if c.Run%(c08Positions+4) >= c08Positions {
+		runC08Gather(c)
+		return
+	}
+	base, cut := c.Run/(c08Positions+4), c.Run%(c08Positions+4)
 	bt := c.T.Sub(c.Seed, "C08/base", base)
 	nA := bt.Range(1, 2, "nA")
 	nB := bt.Range(1, 2, "nB")
